@@ -1,4 +1,5 @@
 import GridVerif.Props.C18
+import GridVerif.Props.C18.Gen
 
 #print axioms GridVerif.C18.mem_product
 #print axioms GridVerif.C18.product_order
@@ -16,3 +17,15 @@ import GridVerif.Props.C18
 #print axioms GridVerif.C18.integrate_separable
 #print axioms GridVerif.NGrid.chunk_fold
 #print axioms GridVerif.NGrid.flatten_chunked
+#print axioms GridVerif.C18.gen_chunked_eq_model
+#print axioms GridVerif.C18.gen_init_eq_model
+#print axioms GridVerif.C18.gen_size_eq_model
+#print axioms GridVerif.C18.gen_weights_eq_model
+#print axioms GridVerif.C18.gen_points_eq_model
+#print axioms GridVerif.C18.gen_integrate_nonvec_eq_model
+#print axioms GridVerif.C18.gen_integrate_vec_eq_model
+#print axioms GridVerif.C18.gen_constructor_wf
+#print axioms GridVerif.C18.gen_size_points_weights
+#print axioms GridVerif.C18.gen_integrate_nonvec_eq
+#print axioms GridVerif.C18.gen_integrate_chunk_independent
+#print axioms GridVerif.C18.gen_integrate_vec_eq
